@@ -803,18 +803,18 @@ def run_shard(tier, seed, shard, nshards, res):
         for i in range(20 if tier == 'quick' else 250):
             rng = common.rng_for(seed, 'c10s', shard, i)
             sequential(dc, sc, res, rng, 'c10 sequential seed=%d shard=%d i=%d' % (seed, shard, i))
-            if res.counters.get('violations_raw', 0) > 8:
+            if res.new_violations() > 8:
                 return
         probe.reset()
         for i in range(60 if tier == 'quick' else 800):
             rng = common.rng_for(seed, 'c10c', shard, i)
             schedule(dc, sc, res, rng, 'c10 schedule seed=%d shard=%d i=%d' % (seed, shard, i))
-            if res.counters.get('violations_raw', 0) > 8:
+            if res.new_violations() > 8:
                 return
         for i in range(60 if tier == 'quick' else 800):
             rng = common.rng_for(seed, 'c10t', shard, i)
             timed_schedule(dc, sc, res, rng, 'c10 timed schedule seed=%d shard=%d i=%d' % (seed, shard, i))
-            if res.counters.get('violations_raw', 0) > 8:
+            if res.new_violations() > 8:
                 return
         probe.reset()
         for i in range(1 if tier == 'quick' else 8):
